@@ -19,7 +19,7 @@ from mc.ref import report as refreport
 from mc.run import Stats, explore
 
 ASSUME = [
-    "projects: 8 of 3-6 tasks (containers, unschedulable, team, ALAP, shared short ids, rates) + one task per day across the 2024/25 year end; task reports only; columns from {id, name, start, end, priority, cost}; quick: ordered selections of <= 2 columns, thorough: <= 3",
+    "projects: 9 of 3-6 tasks (containers, unschedulable, team, teams listed against the declaration order, ALAP, shared short ids, rates) + one task per day across the 2024/25 year end; task reports only; columns from {id, name, start, end, priority, cost}; quick: ordered selections of <= 2 columns, thorough: <= 3",
     "effective time format: the report's `timeformat`, else the project's, else %Y-%m-%d",
     "cost = sum over the task's ledger entries of rate x booked seconds / 3600, two decimals, empty when zero; container cost cells are not judged",
     "rows: every task in declaration order; leaves only when `leaftasksonly true`; unscheduled tasks have empty start/end",
@@ -45,6 +45,10 @@ def projects():
                                          {"id": "ops", "children": [T("deploy", 30, "r3"), {"id": "hand", "children": [T("docs", 20, "r3")]}]}]})
     ps.append({"resources": R, "tasks": [{"id": "web", "children": [T("design", 300), T("code", 60, "r2")]},
                                          {"id": "app", "children": [T("design", 180), T("code", 90, "r2", deps=["!design"])]}, T("design", 30, "r3")]})
+    # teams whose members are listed against the order in which the resources are declared (one allocate statement, and two)
+    R3 = [{"id": "r1", "rate": 50.0}, {"id": "r2", "rate": 12.5}, {"id": "r3", "rate": 7.0}]
+    ps.append({"resources": R3, "tasks": [{"id": "rev", "effort": 240, "alloc": ["r3", "r1"]}, {"id": "two", "effort": 120, "alloc": ["r2"], "raw": ["allocate r1"], "deps": ["rev"]},
+                                          {"id": "mid", "effort": 180, "alloc": ["r2", "r3", "r1"], "deps": ["two"]}]})
     # one task per calendar day across a year end (dates whose ISO week-year / week number differ from the calendar year's)
     ps.append({"start": "2024-12-27", "resources": [{"id": "r1", "rate": 8.0, "hours": [("mon - sun", ["9:00 - 17:00"])]}],
                "tasks": [{"id": "g", "children": [T(f"d{i}", 480, **({"deps": [f"!d{i - 1}"]} if i else {})) for i in range(8)]}]})
